@@ -99,3 +99,47 @@ Proof.
   cbn [forallb] in *. apply andb_true_iff in H. destruct H as [Hx Hl].
   rewrite (wf_emitted_not_skeleton _ _ _ _ Hx). cbn. apply IH. exact Hl.
 Qed.
+
+(* DUP/SWAP depths of accepted items are 1..16 and they carry no value *)
+Lemma prefix_dup n : prefixb "DUP" n = true -> exists r, n = String "D" (String "U" (String "P" r)).
+Proof.
+  destruct n as [|a [|b [|c r]]]; cbn [prefixb]; try discriminate;
+  rewrite ?andb_false_r; try discriminate.
+  rewrite andb_true_r. intros H. apply andb_prop in H as [H1 H]. apply andb_prop in H as [H2 H3].
+  apply Ascii.eqb_eq in H1, H2, H3. subst. eexists; reflexivity.
+Qed.
+Lemma prefix_swap n : prefixb "SWAP" n = true -> exists r, n = String "S" (String "W" (String "A" (String "P" r))).
+Proof.
+  destruct n as [|a [|b [|c [|d r]]]]; cbn [prefixb]; try discriminate;
+  rewrite ?andb_false_r; try discriminate.
+  rewrite andb_true_r. intros H. apply andb_prop in H as [H1 H]. apply andb_prop in H as [H2 H]. apply andb_prop in H as [H3 H4].
+  apply Ascii.eqb_eq in H1, H2, H3, H4. subst. eexists; reflexivity.
+Qed.
+
+Lemma wf_emitted_dup known sto input i k : wf_emitted known sto input i = true ->
+  stack_index "DUP" (disasm i) = Some k -> (1 <= k <= 16)%nat /\ ivalue i = None.
+Proof.
+  unfold wf_emitted. intros H Hk. apply andb_prop in H as [_ H].
+  assert (P : prefixb "DUP" (disasm i) = true).
+  { unfold stack_index in Hk. destruct (prefixb "DUP" (disasm i)); [reflexivity|discriminate]. }
+  destruct (prefix_dup _ P) as [r Hr]. rewrite Hr in H, Hk.
+  cbn [String.eqb Ascii.eqb Bool.eqb] in H.
+  change (mem_str (String "D" (String "U" (String "P" r))) pseudo_push_names) with false in H.
+  rewrite Hk in H. apply andb_prop in H as [H H3]. apply andb_prop in H as [H1 H2].
+  apply Nat.leb_le in H1, H2. split; [lia|]. destruct (ivalue i); [discriminate|reflexivity].
+Qed.
+
+Lemma wf_emitted_swap known sto input i k : wf_emitted known sto input i = true ->
+  stack_index "SWAP" (disasm i) = Some k -> (1 <= k <= 16)%nat /\ ivalue i = None.
+Proof.
+  unfold wf_emitted. intros H Hk. apply andb_prop in H as [_ H].
+  assert (P : prefixb "SWAP" (disasm i) = true).
+  { unfold stack_index in Hk. destruct (prefixb "SWAP" (disasm i)); [reflexivity|discriminate]. }
+  destruct (prefix_swap _ P) as [r Hr]. rewrite Hr in H, Hk.
+  cbn [String.eqb Ascii.eqb Bool.eqb] in H.
+  change (mem_str (String "S" (String "W" (String "A" (String "P" r)))) pseudo_push_names) with false in H.
+  change (stack_index "DUP" (String "S" (String "W" (String "A" (String "P" r))))) with (@None nat) in H.
+  rewrite Hk in H. apply andb_prop in H as [H H3]. apply andb_prop in H as [H1 H2].
+  apply Nat.leb_le in H1, H2. split; [lia|]. destruct (ivalue i); [discriminate|reflexivity].
+Qed.
+
